@@ -18,6 +18,7 @@ package main
 //   cookie store: the sequential clauses only (one request at a time)
 
 import (
+	"context"
 	"fmt"
 	"io"
 	"net/http"
@@ -360,7 +361,118 @@ func init() {
 			}
 			wg.Wait()
 		}
-		c.close([]string{"scenario:once", "scenario:keep-old", "scenario:reject", "scenario:cookie-ok", "scenario:cookie-reject",
+		// ---- (several instances) the OTHER instance refreshed and saved while this request waited for the lock — and this request's
+		// re-read under the lock then FAILS (store fault): it ends there.  It never goes on with the copy it read before the wait,
+		// whose single-use refresh token is spent
+		if e, err := newEnv(c, proxyCfg{Redis: true, CookieRefresh: time.Second, InjectRequest: defaultInject()}); err == nil {
+			rec := e.instrument()
+			e.idp.mu.Lock()
+			e.idp.rotateRT = true
+			e.idp.mu.Unlock()
+			u := defaultUser()
+			for i, kind := range []string{"before", "after"} {
+				s := e.sessionFor(u, 2*time.Hour)
+				s.RefreshToken = fmt.Sprintf("rt-rl-%d-%d", i, time.Now().UnixNano())
+				e.registerRT(s.RefreshToken, u)
+				ck := e.issueSessionCookie(s)
+				_, s0, _ := e.idpCounts()
+				otherOK := false
+				rec.reset(&faultPlan{hooks: map[string]func(){"load#2": func() {
+					// what the other instance did meanwhile: load, refresh at the provider (the token rotates), save under the same ticket
+					inner := e.proxy.sessionStore.(*recStore).inner
+					if cp, err := inner.Load(mustReq(e, ck)); err == nil && cp != nil {
+						if ok, err := e.proxy.provider.(*recProvider).inner.RefreshSession(context.Background(), cp); ok && err == nil {
+							otherOK = inner.Save(&respRecorder{h: http.Header{}}, mustReq(e, ck), cp) == nil
+						}
+					}
+				}}, at: map[string]string{"load#2": kind}})
+				v := e.do(reqSpec{Target: "/app/x", Cookie: ck})
+				rec.reset(nil)
+				_, s1, _ := e.idpCounts()
+				at := ""
+				for _, h := range v.Hits {
+					at = h.Header.Get("X-Forwarded-Access-Token")
+				}
+				c.casen("c12|reload-fails-after-other-refreshed|"+kind, fmt.Sprintf("%d %v", v.Status, otherOK))
+				if !otherOK {
+					c.violation("HARNESS", "the other instance's refresh could not be played", nil)
+					continue
+				}
+				c.count("scenario:reload-fails-after-other-refreshed")
+				in := map[string]interface{}{"status": v.Status, "fault": "the re-read under the refresh lock fails (" + kind + ")", "rotated_refresh_token_presented": s1 - s0, "upstream_access_token": at}
+				if s1-s0 != 0 {
+					c.violation("C12", "the request's re-read under the refresh lock failed and it went on with the copy read BEFORE the wait: the refresh token the other instance had already used (rotated) was presented to the identity provider again", in)
+				}
+				if len(v.Hits) > 0 && at == "at-issued" {
+					c.violation("C12", "the request's re-read under the refresh lock failed and it was served with the PRE-refresh tokens", in)
+				}
+				e.mr.FlushAll()
+			}
+			e.close()
+		} else {
+			c.violation("HARNESS", "env: "+err.Error(), nil)
+		}
+		// ---- browser-session cookies (cookie-expire 0) with a refresh period: stale sessions are refreshed like under any other lifetime
+		for _, redis := range []bool{true, false} {
+			e, err := newEnv(c, proxyCfg{Redis: redis, CookieExpire: -1, CookieRefresh: time.Second, InjectRequest: defaultInject()})
+			if err != nil {
+				c.violation("HARNESS", "env (cookie-expire 0, cookie-refresh 1s): "+err.Error(), nil)
+				continue
+			}
+			u := defaultUser()
+			s := e.sessionFor(u, 2*time.Hour)
+			far := time.Now().Add(24 * time.Hour)
+			s.ExpiresOn = &far
+			s.RefreshToken = fmt.Sprintf("rt-x0-%d", time.Now().UnixNano())
+			e.registerRT(s.RefreshToken, u)
+			r0, _, _ := e.idpCounts()
+			v := e.do(reqSpec{Target: "/app/x", Cookie: e.issueSessionCookie(s)})
+			r1, _, seq := e.idpCounts()
+			at := ""
+			for _, h := range v.Hits {
+				at = h.Header.Get("X-Forwarded-Access-Token")
+			}
+			c.casen(fmt.Sprintf("c12|session-cookies-with-refresh|%v", redis), fmt.Sprintf("%d %d", v.Status, r1-r0))
+			c.count("scenario:session-cookies-with-refresh")
+			if r1-r0 != 1 || at != fmt.Sprintf("at-%d", seq) {
+				c.violation("C12", fmt.Sprintf("cookie-expire 0 with cookie-refresh 1s: a session two hours past its refresh period caused %d refreshes (want 1) and was forwarded with access token %q", r1-r0, at),
+					map[string]interface{}{"redis": redis, "status": v.Status, "refreshes": r1 - r0})
+			}
+			// ... and one that the provider no longer refreshes and that no longer validates is refused (not honoured for ever)
+			dead := e.sessionFor(u, 2*time.Hour)
+			past := time.Now().Add(-time.Hour)
+			dead.ExpiresOn, dead.IDToken, dead.RefreshToken = &past, "", "rt-x0-unknown"
+			if vd := e.do(reqSpec{Target: "/app/x", Cookie: e.issueSessionCookie(dead)}); len(vd.Hits) > 0 {
+				c.violation("C12", "cookie-expire 0 with cookie-refresh 1s: a stale session that can neither be refreshed nor validated was served (stale sessions are honoured for ever)", map[string]interface{}{"redis": redis})
+			}
+			e.close()
+		}
+		// ---- a stale session whose refresh is REJECTED and which no longer validates is refused — every time it is presented, also
+		// seconds later by the same process (cookie store: the cookie itself stays a correctly signed cookie)
+		if e, err := newEnv(c, proxyCfg{CookieRefresh: time.Second, InjectRequest: defaultInject()}); err == nil {
+			u := defaultUser()
+			dead := e.sessionFor(u, 2*time.Hour)
+			past := time.Now().Add(-time.Hour)
+			dead.ExpiresOn, dead.IDToken = &past, ""
+			dead.RefreshToken = fmt.Sprintf("rt-rejected-%d", time.Now().UnixNano())
+			ck := e.issueSessionCookie(dead)
+			for n := 1; n <= 3; n++ {
+				r0, _, _ := e.idpCounts()
+				v := e.do(reqSpec{Target: fmt.Sprintf("/app/try-%d", n), Cookie: ck})
+				c.casen(fmt.Sprintf("c12|rejected-again|%d", n), fmt.Sprint(v.Status))
+				c.count("scenario:rejected-presented-again")
+				_ = r0
+				if len(v.Hits) > 0 {
+					c.violation("C12", fmt.Sprintf("a stale session whose refresh the provider rejects and which no longer validates was refused on presentation 1 and SERVED on presentation %d by the same process: what the process remembers of a rejected refresh must not stand in for refresh and validation", n),
+						map[string]interface{}{"presentation": n, "status": v.Status})
+					break
+				}
+			}
+			e.close()
+		} else {
+			c.violation("HARNESS", "env: "+err.Error(), nil)
+		}
+		c.close([]string{"scenario:reload-fails-after-other-refreshed", "scenario:session-cookies-with-refresh", "scenario:rejected-presented-again", "scenario:once", "scenario:keep-old", "scenario:reject", "scenario:cookie-ok", "scenario:cookie-reject",
 			"concurrency:2", "concurrency:16", "scenario:twice-noid", "scenario:nort-invalid", "scenario:nort-valid", "scenario:once-slow-idp", "scenario:grow", "scenario:skipiss"})
 	})
 }
